@@ -131,7 +131,18 @@ CHECKS = {
         "Alphabet is finite (3 grids, 2 schedules, nx=6, 3 configurations); methods are functions "
         "of vars(obj) and arguments only (state-merging argument, by reading).",
         "4/C10"),
-    "C11": (False, EX, "", "", "", "4/C11"),
+    "C11": (
+        True, EX,
+        "all arrays up to a length bound over a branch-boundary pressure alphabet x dtype x memory "
+        "layout x oil x function, each compared element-wise with the scalar call",
+        "Every array of length 0..3 (quick) / 0..4 (thorough) over the 7-value alphabet {15, 0.5 p_b, "
+        "prev(p_b), p_b, next(p_b) in the array's own dtype, 1.5 p_b, 2.5 p_b} is passed, as float64, "
+        "float32, int64 and int32, contiguous, stride-2 view and reversed view, to 12 array-accepting "
+        "functions for 3 oils (173k / 1.2M calls): element k must equal the scalar call to 64 eps of the "
+        "floating type involved, the result must be floating with the input's shape, and the input's "
+        "bytes (view and base) must be unchanged.",
+        "2-D arrays and scalars to Fluid.water_FVF/gas_FVF are outside the quantifier.",
+        "4/C11"),
     "C12": (False, EX, "", "", "", "4/C12"),
     "C13": (False, EX, "", "", "", "4/C13"),
     "C14": (False, EX, "", "", "", "4/C14"),
